@@ -13,9 +13,20 @@ harness/vcheck.py is held throughout, so a check running at the same time waits 
   (c) make a mandatory read optional                                     CreateResponsePayload.read (unique identifier)
   (d) read() stores a field in another field's attribute                  CapabilityInformation.read (the defect /repo 4f93fbb repaired)
   (e) drop a field from write() only                                      ResponseHeader.write (server correlation value, /repo 15c47ac)
-  (f) harmless rewrite: rename a local variable / reorder two pure statements in a read()   -> everything still checks
+  (f) harmless rewrites -> the generated SchemasGen.lean must be IDENTICAL to the one generated from /repo (no rebuild,
+      no alarm): f0 local renamed / list() -> [] / `is not None` dropped / message built in a local;
+      f-C1..f-C5 the five stored refactorings notes/harmless/round5/C-*.diff (C-3: module-level `_write_optional`);
+      g1 read() through a helper METHOD returning the object, tags through a module constant and a class attribute,
+         renamed stream variable, keyword argument, write() looping over a list literal of its fields;
+      g2 `for x in self._xs or []`, a list comprehension / `extend` building the list that is then written in a loop;
+      g3 version tests with the operands swapped, through `_is_2_0(v)`, under `not`, class guard as `if ok: ... else: raise`,
+         renamed version parameter;
+      g4 write() through a helper method that calls a module-level helper with an early `return` (depth 2);
+      g5 mandatory read written as `if not self.is_tag_next(T, s): raise` + read, `if not self._x: raise else: write`.
 """
+import ast
 import fcntl
+import glob
 import os
 import re
 import shutil
@@ -122,12 +133,232 @@ def mut_f(root):
          "            what = \"data\"\n            raise ValueError(\"invalid payload missing the %s attribute\" % what)")
 
 
+# ---------------------------------------------------------------------------------------------------------
+# harmless rewrites, made on the AST of the scratch copy and unparsed back
+# ---------------------------------------------------------------------------------------------------------
+
+def rewrite(path, cls, transform, before_class="", in_class=""):
+    """apply transform({method name: FunctionDef}) to class `cls` of the file; the methods it returns (by name) are
+    replaced by their unparsed new form; `before_class` is inserted in front of the class, `in_class` before read()"""
+    text = open(path).read()
+    lines = text.split("\n")
+    tree = ast.parse(text)
+    node = [n for n in tree.body if isinstance(n, ast.ClassDef) and n.name == cls][0]
+    ms = {m.name: m for m in node.body if isinstance(m, ast.FunctionDef)}
+    changed = transform(ms)
+    edits = []
+    for name in changed:
+        fn = ms[name]
+        new = "\n".join("    " + ln if ln else ln for ln in ast.unparse(fn).split("\n"))
+        edits.append((fn.lineno, fn.end_lineno, new))
+    if in_class:
+        edits.append((ms["read"].lineno, ms["read"].lineno - 1, in_class.rstrip("\n") + "\n"))
+    if before_class:
+        first = min([node.lineno] + [d.lineno for d in node.decorator_list])
+        edits.append((first, first - 1, before_class.rstrip("\n") + "\n\n"))
+    for a, b, new in sorted(edits, key=lambda e: (-e[0], -e[1])):
+        lines[a - 1:b] = new.split("\n")
+    open(path, "w").write("\n".join(lines))
+    ast.parse(open(path).read())
+
+
+def stmts(code):
+    return ast.parse(code).body
+
+
+def keep_doc(fn, body):
+    doc = fn.body[:1] if isinstance(fn.body[0], ast.Expr) and isinstance(getattr(fn.body[0], "value", None), ast.Constant) else []
+    fn.body = doc + body
+
+
+def harm_g1(root):
+    def t(ms):
+        keep_doc(ms["read"], stmts(
+            "super(ObtainLeaseResponsePayload, self).read(input_stream, kmip_version=kmip_version)\n"
+            "body = utils.BytearrayStream(input_stream.read(self.length))\n"
+            "self._unique_identifier = self._read_optional(_UID_TAG, primitives.TextString, body, kmip_version)\n"
+            "self._lease_time = self._read_optional(self.LEASE_TAG, primitives.Interval, body, version=kmip_version)\n"
+            "self._last_change_date = self._read_optional(enums.Tags.LAST_CHANGE_DATE, primitives.DateTime, body, kmip_version)\n"
+            "self.is_oversized(body)\n"))
+        keep_doc(ms["write"], stmts(
+            "out = utils.BytearrayStream()\n"
+            "for item in [self._unique_identifier, self._lease_time, self._last_change_date]:\n"
+            "    if item:\n"
+            "        item.write(out, kmip_version=kmip_version)\n"
+            "self.length = out.length()\n"
+            "super(ObtainLeaseResponsePayload, self).write(output_stream, kmip_version=kmip_version)\n"
+            "output_stream.write(out.buffer)\n"))
+        return ["read", "write"]
+    rewrite(os.path.join(root, "kmip/core/messages/payloads/obtain_lease.py"), "ObtainLeaseResponsePayload", t,
+            before_class="_UID_TAG = enums.Tags.UNIQUE_IDENTIFIER\n",
+            in_class="    LEASE_TAG = enums.Tags.LEASE_TIME\n\n"
+                     "    def _read_optional(self, tag, cls, stream, version):\n"
+                     "        \"\"\"Read the item with the given tag if it comes next.\"\"\"\n"
+                     "        if self.is_tag_next(tag, stream):\n"
+                     "            item = cls(tag=tag)\n"
+                     "            item.read(stream, kmip_version=version)\n"
+                     "            return item\n"
+                     "        return None\n\n")
+
+
+def harm_g2(root):
+    def t(ms):
+        keep_doc(ms["write"], stmts(
+            "buf = utils.BytearrayStream()\n"
+            "if self._located_items:\n"
+            "    self._located_items.write(buf, kmip_version=kmip_version)\n"
+            "for uid in self._unique_identifiers or []:\n"
+            "    uid.write(buf, kmip_version=kmip_version)\n"
+            "self.length = buf.length()\n"
+            "super(LocateResponsePayload, self).write(output_buffer, kmip_version=kmip_version)\n"
+            "output_buffer.write(buf.buffer)\n"))
+        return ["write"]
+    rewrite(os.path.join(root, "kmip/core/messages/payloads/locate.py"), "LocateResponsePayload", t)
+
+    def t2(ms):
+        keep_doc(ms["write"], stmts(
+            "local_buffer = utils.BytearrayStream()\n"
+            "if self._unique_identifier:\n"
+            "    self._unique_identifier.write(local_buffer, kmip_version=kmip_version)\n"
+            "if kmip_version < enums.KMIPVersion.KMIP_2_0:\n"
+            "    names = []\n"
+            "    names.extend(self._attribute_names)\n"
+            "    for attribute_name in names:\n"
+            "        attribute_name.write(local_buffer, kmip_version=kmip_version)\n"
+            "else:\n"
+            "    references = [primitives.Enumeration(enums.Tags, value=enums.convert_attribute_name_to_tag(n.value), "
+            "tag=enums.Tags.ATTRIBUTE_REFERENCE) for n in self._attribute_names]\n"
+            "    for reference in references:\n"
+            "        reference.write(local_buffer, kmip_version=kmip_version)\n"
+            "self.length = local_buffer.length()\n"
+            "super(GetAttributesRequestPayload, self).write(output_buffer, kmip_version=kmip_version)\n"
+            "output_buffer.write(local_buffer.buffer)\n"))
+        return ["write"]
+    rewrite(os.path.join(root, "kmip/core/messages/payloads/get_attributes.py"), "GetAttributesRequestPayload", t2)
+
+
+class _Versions(ast.NodeTransformer):
+    """kmip_version < KMIP_2_0  ->  KMIP_2_0 > kmip_version (read) / not _is_2_0(kmip_version) (write)"""
+    def __init__(self, mode):
+        self.mode = mode
+
+    def visit_Compare(self, node):
+        if isinstance(node.left, ast.Name) and node.left.id == "kmip_version" and isinstance(node.ops[0], (ast.Lt, ast.GtE)) \
+                and ast.unparse(node.comparators[0]) == "enums.KMIPVersion.KMIP_2_0":
+            lt = isinstance(node.ops[0], ast.Lt)
+            if self.mode == "swap":
+                return ast.Compare(left=node.comparators[0], ops=[ast.Gt() if lt else ast.LtE()], comparators=[node.left])
+            call = ast.Call(func=ast.Name(id="_is_2_0", ctx=ast.Load()), args=[node.left], keywords=[])
+            return ast.UnaryOp(op=ast.Not(), operand=call) if lt else call
+        return node
+
+
+def harm_g3(root):
+    def t(ms):
+        _Versions("swap").visit(ms["read"])
+        _Versions("helper").visit(ms["write"])
+        ast.fix_missing_locations(ms["read"])
+        ast.fix_missing_locations(ms["write"])
+        return ["read", "write"]
+    for f, c in (("create.py", "CreateRequestPayload"), ("create.py", "CreateResponsePayload"),
+                 ("register.py", "RegisterRequestPayload")):
+        rewrite(os.path.join(root, "kmip/core/messages/payloads", f), c, t,
+                before_class="" if c == "CreateResponsePayload" else
+                "def _is_2_0(version):\n    return version >= enums.KMIPVersion.KMIP_2_0\n\n")
+
+    # class guard `if v < 2.0: raise` + rest  ->  `if v >= 2.0: rest else: raise`; version parameter renamed
+    def guard(ms):
+        for name in ("read", "write"):
+            fn = ms[name]
+            doc, body = fn.body[:1], fn.body[1:]
+            g = body[0]
+            assert isinstance(g, ast.If) and isinstance(g.body[0], ast.Raise), ast.unparse(g)[:80]
+            test = ast.Compare(left=g.test.left, ops=[ast.GtE()], comparators=g.test.comparators)
+            fn.body = doc + [ast.If(test=test, body=body[1:], orelse=g.body)]
+            for n in ast.walk(fn):
+                if isinstance(n, ast.Name) and n.id == "kmip_version":
+                    n.id = "version"
+                if isinstance(n, ast.arg) and n.arg == "kmip_version":
+                    n.arg = "version"
+            ast.fix_missing_locations(fn)
+        return ["read", "write"]
+    rewrite(os.path.join(root, "kmip/core/objects.py"), "ProtectionStorageMasks", guard)
+
+
+def harm_g4(root):
+    def t(ms):
+        keep_doc(ms["write"], stmts(
+            "tstream = BytearrayStream()\n"
+            "self._put(self.private_key_uuid, tstream, kmip_version)\n"
+            "self._put(self.offset, tstream, kmip_version)\n"
+            "self._put(self.common_template_attribute, tstream, kmip_version)\n"
+            "self._put(self.private_key_template_attribute, tstream, kmip_version)\n"
+            "self._put(item=self.public_key_template_attribute, stream=tstream, kmip_version=kmip_version)\n"
+            "self.length = tstream.length()\n"
+            "super(RekeyKeyPairRequestPayload, self).write(ostream, kmip_version=kmip_version)\n"
+            "ostream.write(tstream.buffer)\n"))
+        return ["write"]
+    rewrite(os.path.join(root, "kmip/core/messages/payloads/rekey_key_pair.py"), "RekeyKeyPairRequestPayload", t,
+            before_class="def _write_optional(field, stream, kmip_version):\n"
+                         "    if field is None:\n"
+                         "        return\n"
+                         "    field.write(stream, kmip_version=kmip_version)\n\n",
+            in_class="    def _put(self, item, stream, kmip_version):\n"
+                     "        _write_optional(item, stream, kmip_version)\n\n")
+
+
+def harm_g5(root):
+    def t(ms):
+        keep_doc(ms["read"], stmts(
+            "super(DecryptResponsePayload, self).read(input_stream, kmip_version=kmip_version)\n"
+            "local_stream = utils.BytearrayStream(input_stream.read(self.length))\n"
+            "if not self.is_tag_next(enums.Tags.UNIQUE_IDENTIFIER, local_stream):\n"
+            "    raise ValueError('invalid payload missing the unique identifier attribute')\n"
+            "self._unique_identifier = primitives.TextString(tag=enums.Tags.UNIQUE_IDENTIFIER)\n"
+            "self._unique_identifier.read(local_stream, kmip_version=kmip_version)\n"
+            "if not self.is_tag_next(enums.Tags.DATA, local_stream):\n"
+            "    raise ValueError('invalid payload missing the data attribute')\n"
+            "self._data = primitives.ByteString(tag=enums.Tags.DATA)\n"
+            "self._data.read(local_stream, kmip_version=kmip_version)\n"
+            "self.is_oversized(local_stream)\n"))
+        keep_doc(ms["write"], stmts(
+            "local_stream = utils.BytearrayStream()\n"
+            "if not self._unique_identifier:\n"
+            "    raise ValueError('invalid payload missing the unique identifier attribute')\n"
+            "else:\n"
+            "    self._unique_identifier.write(local_stream, kmip_version=kmip_version)\n"
+            "if self._data is None:\n"
+            "    raise ValueError('invalid payload missing the data attribute')\n"
+            "else:\n"
+            "    self._data.write(local_stream, kmip_version=kmip_version)\n"
+            "self.length = local_stream.length()\n"
+            "super(DecryptResponsePayload, self).write(output_stream, kmip_version=kmip_version)\n"
+            "output_stream.write(local_stream.buffer)\n"))
+        return ["read", "write"]
+    rewrite(os.path.join(root, "kmip/core/messages/payloads/decrypt.py"), "DecryptResponsePayload", t)
+
+
+def stored_diff(path):
+    def apply(root):
+        r = subprocess.run(["git", "apply", "--exclude=kmip/tests/*", path], cwd=root, capture_output=True, text=True)
+        assert r.returncode == 0, r.stderr
+    return apply
+
+
+HARMLESS = [("f0: local renamed, list() -> [], `is not None` dropped, message built in a local", mut_f)] + \
+    [("f-%s" % os.path.basename(d)[:-5], stored_diff(d))
+     for d in sorted(glob.glob(os.path.join(VERIF, "notes", "harmless", "round5", "C-*.diff")))] + \
+    [("g1: read() through a helper method returning the object; constant / class-attribute tags; list-literal loop", harm_g1),
+     ("g2: `for x in self._xs or []`; list comprehension / extend, then a loop", harm_g2),
+     ("g3: version tests swapped / through _is_2_0 / negated; guard as if-else; version parameter renamed", harm_g3),
+     ("g4: write() through a method calling a module helper with an early return (depth 2)", harm_g4),
+     ("g5: `if not is_tag_next: raise` + read; `if not x: raise else: write`", harm_g5)]
+
 MUTANTS = [("a: swap two field writes (CheckRequestPayload.write)", mut_a, True),
            ("b: drop the KMIP 2.0 guard around Ephemeral (RequestBatchItem.read)", mut_b, True),
            ("c: mandatory unique identifier made optional (CreateResponsePayload.read)", mut_c, True),
            ("d: read() stores Batch Undo Capability in the Batch Continue attribute (CapabilityInformation.read)", mut_d, True),
-           ("e: write() forgets the server correlation value (ResponseHeader.write)", mut_e, True),
-           ("f: harmless rewrites (local renamed, list() -> [], `is not None` dropped, message built in a local)", mut_f, False)]
+           ("e: write() forgets the server correlation value (ResponseHeader.write)", mut_e, True)]
 
 
 def theorems_at(lines_failed):
@@ -172,6 +403,28 @@ def main():
         base = regen_and_build(REPO)
         print("baseline (unchanged /repo):", base)
         assert base.get("build_ok"), "the unchanged tree must build"
+        base_lean = open(os.path.join(LEAN, "KmipModel", "Gen", "SchemasGen.lean")).read()
+        for name, fn in HARMLESS:
+            tmp = tempfile.mkdtemp(prefix="schema_selftest_")
+            try:
+                shutil.copytree(os.path.join(REPO, "kmip"), os.path.join(tmp, "kmip"),
+                                ignore=shutil.ignore_patterns("__pycache__", "tests"))
+                fn(tmp)
+                g = subprocess.run([PY, os.path.join(VERIF, "harness", "gen_schemas.py"), tmp, os.path.join(tmp, "out")],
+                                   capture_output=True, text=True)
+                same = g.returncode == 0 and open(os.path.join(tmp, "out", "SchemasGen.lean")).read() == base_lean
+                detail = ""
+                if g.returncode != 0:
+                    detail = g.stderr[-300:]
+                elif not same:
+                    import difflib
+                    detail = "\n".join(list(difflib.unified_diff(
+                        base_lean.split("\n"), open(os.path.join(tmp, "out", "SchemasGen.lean")).read().split("\n"),
+                        lineterm="", n=0))[:12])
+            finally:
+                shutil.rmtree(tmp, ignore_errors=True)
+            ok = ok and same
+            print("%-118s %s" % (name, "quiet (tables identical)" if same else "FALSE ALARM\n" + detail))
         for name, fn, must_break in MUTANTS:
             tmp = tempfile.mkdtemp(prefix="schema_selftest_")
             try:
